@@ -141,6 +141,7 @@ type scenario struct {
 	doCallers  int // callers that use plain Do (not judged for time; they provoke overflows)
 	readTmo    time.Duration
 	batchDelay time.Duration
+	waves      int  // > 0: the callers' k-th calls form wave k; between waves nobody calls for a quiet period > MaxIdleConnDuration
 	micro      bool // timeouts of 0.2-50 us (and deadlines already past): they expire inside the call's own set-up
 	cfg        tagsrv.Config
 }
@@ -226,6 +227,36 @@ func genMicro(idx int, rnd *rand.Rand) *scenario {
 	return sc
 }
 
+const maxIdleConn = 50 * time.Millisecond
+
+// genWaves: "timeouts -> quiet period -> more calls" on ONE connection of a server that never
+// answers (or answers only part of each batch): 2..MaxPendingRequests deadline calls are pipelined
+// and all time out in flight (they stay in the read queue), then nobody calls for 4 x
+// MaxIdleConnDuration (the writer's idle check runs with pending work and no users), then the next wave.
+func genWaves(idx int, rnd *rand.Rand) *scenario {
+	sc := &scenario{idx: idx, mode: "waves-mute"}
+	sc.cfg.Seed = rnd.Uint64()
+	sc.cfg.MaxBody = 600
+	sc.maxConns = 1
+	sc.maxPending = 4 + rnd.Intn(5)
+	sc.callers = 2 + rnd.Intn(sc.maxPending-1)
+	sc.waves = 2 + rnd.Intn(2)
+	sc.perCaller = sc.waves
+	S, N, K := int(tagsrv.Stall), int(tagsrv.Normal), int(tagsrv.Chunked)
+	switch rnd.Intn(3) {
+	case 0:
+		sc.cfg.Weights = w(S, 100)
+	case 1:
+		sc.mode = "waves-partly-answered"
+		sc.cfg.Batch = true
+		sc.cfg.Weights = w(S, 50, N, 40, K, 10)
+	default:
+		sc.mode = "waves-partly-answered"
+		sc.cfg.Weights = w(S, 35, N, 65)
+	}
+	return sc
+}
+
 // microTimeout is log-uniform in 0.2 us .. 51 us.
 func microTimeout(rnd *rand.Rand) time.Duration {
 	return time.Duration(200 * math.Pow(2, rnd.Float64()*8))
@@ -305,12 +336,13 @@ type result struct {
 	drained    bool
 	doStuck    bool
 	idleCloses int
+	quiet      int // quiet periods that took place between waves
 }
 
 func runScenario(sc *scenario, r *mon.Run, cn *canary) *result {
 	srv := tagsrv.New(sc.cfg)
 	pc := &fasthttp.PipelineClient{Addr: "p.test", Dial: srv.Dial, MaxConns: sc.maxConns, MaxPendingRequests: sc.maxPending,
-		MaxIdleConnDuration: 50 * time.Millisecond, ReadTimeout: sc.readTmo, MaxBatchDelay: sc.batchDelay, Logger: nopLogger{}}
+		MaxIdleConnDuration: maxIdleConn, ReadTimeout: sc.readTmo, MaxBatchDelay: sc.batchDelay, Logger: nopLogger{}}
 	res := &result{}
 	var mu sync.Mutex
 	slots := make([]*slot, sc.callers)
@@ -319,6 +351,30 @@ func runScenario(sc *scenario, r *mon.Run, cn *canary) *result {
 	}
 	var judged, unjudged sync.WaitGroup
 	var completed atomic.Int64
+	waveGate := make([]chan struct{}, sc.waves)
+	for i := range waveGate {
+		waveGate[i] = make(chan struct{})
+	}
+	if sc.waves > 0 {
+		close(waveGate[0])
+		go func() { // wave manager
+			for wv := 1; wv < sc.waves; wv++ {
+				for completed.Load() < int64(sc.callers*wv) {
+					time.Sleep(2 * time.Millisecond)
+				}
+				// quiet period: nobody is inside a call; the writer's idle check (MaxIdleConnDuration) must get its turn
+				for try := 0; try < 6; try++ {
+					t0 := time.Now()
+					time.Sleep(4 * maxIdleConn)
+					if cn.maxLag(t0, time.Now()) < 30*time.Millisecond {
+						break // (otherwise the process was held up and the client's goroutines may not have run: wait again)
+					}
+				}
+				res.quiet++
+				close(waveGate[wv])
+			}
+		}()
+	}
 	for g := 0; g < sc.callers; g++ {
 		plainDo := g < sc.doCallers
 		if plainDo {
@@ -334,6 +390,9 @@ func runScenario(sc *scenario, r *mon.Run, cn *canary) *result {
 			}
 			rnd := r.Rand(fmt.Sprintf("caller-%d", sc.idx), g)
 			for k := 0; k < sc.perCaller; k++ {
+				if sc.waves > 0 {
+					<-waveGate[k]
+				}
 				id := fmt.Sprintf("s%d.g%d.n%d", sc.idx, g, k)
 				c := &call{ID: id}
 				func() {
@@ -495,7 +554,13 @@ drain:
 			res.idleCloses++
 			lastChange = time.Now()
 		}
-		if time.Since(start) > 60*time.Second {
+		blocked := false
+		for _, lc := range res.late {
+			blocked = blocked || lc.Blocked
+		}
+		if time.Since(start) > 60*time.Second || blocked && time.Since(start) > 6*time.Second {
+			// (calls that were blocked 3 s past their deadline and are still not back 6 s after the server
+			// released everything and closed its connections several times will not come back)
 			res.doStuck = true
 			break drain
 		}
@@ -520,6 +585,8 @@ func TestC38(t *testing.T) {
 	r.Rule("scenario = one PipelineClient (MaxConns 1-2, MaxPendingRequests 1-4, ReadTimeout 0/30ms, MaxBatchDelay 0/2ms) against one tag server in one of 12 modes " +
 		"(stall, stall+close, late answer, close, slow 5-200 ms, slow tail, ok, mixed, dial refused / refused with timeout error / refused k times then accepted), 4-32 callers x 1-3 calls, " +
 		"DoTimeout/DoDeadline with 20-100 ms, 0-25% of the callers use plain Do (to evict queued work); case = one call; " +
+		"plus wave scenarios (MaxConns 1, MaxPendingRequests 4-8, server mute or answering part of each batch: 2..MaxPendingRequests deadline calls are pipelined and time out in flight, nobody calls for 4 x MaxIdleConnDuration (50 ms), next wave; 2-3 waves) " +
+		"and slot-race rounds (fresh client, MaxConns 1, MaxPendingRequests 1, hanging Dial, 4-8 callers lined up at pc.do.beforeQueue and released together into DoTimeout(20-40 ms)); " +
 		"plus micro-timeout scenarios: 24-64 callers x 40-120 calls with timeouts log-uniform in 0.2-51 us (10% with the deadline all but over before the call) on MaxConns 1 (20%: 2) against a mute server (stall / stall+close / 20% answers), under allocation pressure and sleeps at pc.do.beforeQueue, so that deadlines expire inside the call's own set-up (entry check, channel acquisition, work/timer acquisition); " +
 		"distinct = feature vector (mode, MaxConns, MaxPendingRequests, caller bucket, set of outcomes seen, plain-Do callers present); non-trivial = at least one call of the scenario timed out, overflowed or saw a connection error")
 	r.Assume("slack 1 s; stalls are released only after every judged call has returned or was recorded blocked at deadline + 1 s, and then not before the blocked call is 3 s past its deadline")
@@ -537,20 +604,25 @@ func TestC38(t *testing.T) {
 	defer close(cn.stop)
 
 	n := r.N(360, 10000)
-	m := r.N(96, 1500) // micro-timeout scenarios: case indices n .. n+m-1
+	m := r.N(96, 1500)  // micro-timeout scenarios: case indices n .. n+m-1
+	v := r.N(64, 800)   // "timeouts -> quiet period -> more calls" scenarios: case indices n+m .. n+m+v-1
+	q := r.N(110, 1100) // slot-race batches of 40 rounds each: case indices n+m+v .. n+m+v+q-1
 	judge := func(i int) {
 		if !r.Want(i) {
 			return
 		}
 		var sc *scenario
-		if i < n {
+		switch {
+		case i < n:
 			sc = genScenario(i, r.Rand("scenario", i))
-		} else {
+		case i < n+m:
 			sc = genMicro(i, r.Rand("micro", i))
+		default:
+			sc = genWaves(i, r.Rand("waves", i))
 		}
 		res := runScenario(sc, r, cn)
 		desc := fmt.Sprintf("scenario %d mode=%s MaxConns=%d MaxPendingRequests=%d callers=%d(x%d, %d plain Do) ReadTimeout=%v", i, sc.mode, sc.maxConns, sc.maxPending, sc.callers, sc.perCaller, sc.doCallers, sc.readTmo)
-		if res.doStuck {
+		if res.doStuck && len(res.late) == 0 {
 			r.Event("inconclusive_callers_stuck", 1)
 			r.Inconclusive(desc + ": callers still blocked 60 s after the server released everything and closed its connections")
 			return
@@ -612,7 +684,11 @@ func TestC38(t *testing.T) {
 			}
 		}
 		r.Event("worst_overrun_ms_sum", int(worst/time.Millisecond))
-		if sc.micro {
+		if sc.waves > 0 {
+			r.Event("wave_scenarios", 1)
+			r.Event("wave_quiet_periods", res.quiet)
+			r.Event("wave_deadline_calls_judged", njudged)
+		} else if sc.micro {
 			r.Event("micro_scenarios", 1)
 			r.Event("micro_deadline_calls_judged", njudged)
 		} else {
@@ -683,7 +759,10 @@ func TestC38(t *testing.T) {
 			r.Sample(map[string]any{"scenario": desc, "outcomes": outcomes, "worst_overrun_ms": worst.Milliseconds(), "server_conns": len(res.snap.Conns), "ids_seen_by_server": len(res.snap.Seen)})
 		}
 	}
+	phase := time.Now()
+	lap := func(name string) { r.Set("phase_s_"+name, time.Since(phase).Seconds()); phase = time.Now() }
 	mon.Parallel(n, 32, judge)
+	lap("main")
 	hits := p.Hits()
 	for k, v := range hits {
 		r.Event("hook:"+k, v)
@@ -696,9 +775,81 @@ func TestC38(t *testing.T) {
 	p2.Only = map[string]bool{"pc.do.beforeQueue": true, "pc.writer.beforeWrite": true}
 	p2.Install()
 	mon.Parallel(m, 6, func(k int) { judge(n + k) })
+	lap("micro")
 	for k, v := range p2.Hits() {
 		r.Event("micro_hook:"+k, v) // pc.do.beforeQueue = calls that got past DoDeadline's entry check
 	}
+	// Third phase: waves (light perturbation again).
+	p.Install()
+	mon.Parallel(v, 32, func(k int) { judge(n + m + k) })
+	lap("waves")
+
+	// Fourth phase: slot-race rounds. The hook lines the callers of a round up right in front of the enqueue.
+	fasthttp.VerifSetPointHook(slotRaceHook)
+	mon.Parallel(q, 16, func(k int) {
+		i := n + m + v + k
+		if !r.Want(i) {
+			return
+		}
+		rnd := r.Rand("slotrace", i)
+		srv := tagsrv.New(tagsrv.Config{Seed: rnd.Uint64(), MaxBody: 200})
+		const rounds = 40
+		ncalls, late := 0, 0
+		for round := 0; round < rounds; round++ {
+			kk := 4 + rnd.Intn(5)
+			timeout := time.Duration(20+rnd.Intn(21)) * time.Millisecond
+			sr := runSlotRound(i, round, kk, timeout, srv)
+			desc := fmt.Sprintf("slot-race batch %d round %d: fresh PipelineClient MaxConns=1 MaxPendingRequests=1, hanging Dial, %d callers lined up in front of the enqueue, DoTimeout(%v)", i, round, kk, timeout)
+			guard := func(limit time.Duration, what string) bool { // true = judge
+				if lag := cn.maxLag(sr.started, sr.end); lag > limit {
+					r.Event("skipped_late_under_load", 1)
+					r.Inconclusive(fmt.Sprintf("%s: %s, but a canary goroutine of this process woke up %v late in that window (overload)", desc, what, lag))
+					return false
+				}
+				return true
+			}
+			blocked := map[string]bool{}
+			for _, id := range sr.blocked {
+				blocked[id] = true
+			}
+			for _, id := range sr.never {
+				blocked[id] = true
+				if guard(frozenLimit, "call "+id+" never returned") {
+					r.Violation(i, "late-return", fmt.Sprintf("%s: call %s was still inside the call %v after its deadline and did not return within 10 s after the dial had been released", desc, id, minStall),
+						map[string]any{"round": desc, "id": id, "stacks_when_blocked_3s_past_deadline": sr.stacks})
+				}
+			}
+			for _, c := range sr.calls {
+				ncalls++
+				switch {
+				case blocked[c.ID]:
+					late++
+					if guard(frozenLimit, "call "+c.ID+" was blocked") {
+						r.Violation(i, "late-return", fmt.Sprintf("%s: call %s was still inside the call %v after its deadline while the dial was hanging; it returned %v after its deadline, once the dial was released, with %s %q", desc, c.ID, minStall, c.LateBy.Round(time.Millisecond), c.Class, c.Err),
+							map[string]any{"round": desc, "call": c, "blocked_until_hang_released": true, "stacks_when_blocked_3s_past_deadline": sr.stacks})
+					}
+				case c.LateBy > slack:
+					late++
+					if guard(loadLimit, "call "+c.ID+" returned late") {
+						r.Violation(i, "late-return", fmt.Sprintf("%s: call %s returned by itself %v after its deadline with %s %q", desc, c.ID, c.LateBy.Round(time.Millisecond), c.Class, c.Err),
+							map[string]any{"round": desc, "call": c})
+					}
+				}
+				switch c.Class {
+				case "wrong-response", "unexpected-error", "panic":
+					r.Violation(i, c.Class, fmt.Sprintf("%s: call %s: %s %s %s", desc, c.ID, c.Class, c.Err, c.Detail), map[string]any{"round": desc, "call": c})
+				}
+				r.Event("result_"+c.Class, 1)
+			}
+		}
+		srv.Shutdown(10 * time.Second)
+		r.Cases(ncalls, fmt.Sprintf("slot-race/late=%v", late > 0), true)
+		r.Event("slot_race_rounds", rounds)
+		r.Event("slot_race_calls_judged", ncalls)
+	})
+	lap("slotrace")
+	r.Event("slot_race_lineups_complete", int(lineUpsMet.Load()))
+	r.Event("slot_race_lineups_incomplete", int(lineUpsMissed.Load()))
 	if !r.Replaying() {
 		r.Require("deadline_calls_judged", n*4)
 		r.Require("result_timeout", n)
@@ -709,5 +860,9 @@ func TestC38(t *testing.T) {
 		r.Require("hook:pc.writer.beforeWrite", n)
 		r.Require("micro_deadline_calls_judged", m*24*40/2)
 		r.Require("micro_hook:pc.do.beforeQueue", m*20)
+		r.Require("wave_quiet_periods", v)
+		r.Require("wave_deadline_calls_judged", v*4)
+		r.Require("slot_race_rounds", q*40)
+		r.Require("slot_race_lineups_complete", q*40)
 	}
 }
